@@ -34,7 +34,7 @@ LEVEL = "proof"
 TRUSTED = ["snprintf/sprintf replaced by a format-aware worst-case contract (contracts/common/st_fmt.c): size argument must fit the destination, output length = sum of per-conversion upper bounds",
            "Memory replaced by a 16-byte symbolic window starting at the instruction's address; an access outside it fails the locality obligation"]
 MANIFEST = {
-    "text": "Per-CPU contract on the real disassembler over all byte contents, addresses and flags: total, length in [unit, longest], reads only its own bytes, NUL-terminated text inside the caller's buffer; table scans closed by complete unwinding.",
+    "text": "Per-CPU contract on the real disassembler over all byte contents, addresses and flags: total, length in [unit, longest], reads only its own bytes (pdp11, which reads ahead: 2-safety form - two memories equal on the reported bytes give the same length and text), NUL-terminated text inside the caller's buffer; table scans closed by complete unwinding.",
     "note": "Claimed for the CPUs listed in evidence (functions_under_contract); the others are not decided. strcat/strcpy use CBMC's models.",
     "technique": "CBMC contract harness generated per CPU (window-memory and snprintf contracts) on disasm/*.cpp + table/*.cpp",
 }
